@@ -6,6 +6,10 @@ mod e2;
 mod e4;
 mod e5;
 mod c14;
+mod c15;
+mod c16;
+mod c18;
+mod c19;
 mod checks_e5;
 mod http;
 mod checks_e4;
@@ -52,6 +56,66 @@ fn main() {
                 "C09" => checks_e1::run("C09", &tier, seed),
                 "C12" => e6::run(&tier, seed),
                 "C13" => checks_e4::run("C13", &tier, seed),
+                "C18" => checks_e5::run(
+                    checks_e5::Plan {
+                        prop: "C18",
+                        level: "exploration",
+                        rule: "cases on a real serve process: 4-7 generators over 2 contexts with string-producing expressions (single value, list stream of 1-4, empty stream, lazy stream with sleeps, unicode and empty strings), observed for >=3 lifecycles each (1 s respawn delay); a spawn without content and a spawn for a running name; 1-2 duplex generators (lines | each echo) fed 3-7 newline-terminated unique tokens interleaved with other names' sends, ordinary frames and a contentless send; trace spec per spawn id: (start recv* stop)* with recv contents equal to the produced strings in order, source_id and context on every frame, a new start after each stop, exactly one spawn.error per refused spawn, each token echoed exactly once in order; non-trivial = case with >=4 complete lifecycles checked; distinct by the set of expressions",
+                        quick: 16,
+                        thorough: 120,
+                        par: 16,
+                        assumptions: vec!["only string-producing expressions (the property's quantifier)", "duplex input is a byte stream without framing: tokens are newline-terminated and the oracle is per line", "same-name sends in other contexts are not generated (the statement does not say which way they go)"],
+                        required: vec!["lifecycles_checked", "duplex_tokens_checked", "refused_spawns_checked"],
+                    },
+                    &tier,
+                    seed,
+                    |s, _| c18::run_case(s),
+                ),
+                "C19" => checks_e5::run(
+                    checks_e5::Plan {
+                        prop: "C19",
+                        level: "exploration",
+                        rule: "event sequences over 2 command names x 2 contexts on a real serve process: define (generated scripts: 0-4 output records, sleeps, explicit .append, eager or mid-stream failure, custom suffix/ttl), invalid definitions, redefinitions, single calls and bursts of 4-8 overlapping calls, each call carrying a unique argument that every output embeds; per call: results in order with the call's own argument, the tag of the definition in force, the initial environment (isolation probe), exactly one terminal event and nothing after it, stamps command_id/frame_id, caller's context, configured suffix/ttl; invalid definition => exactly one error naming it; non-trivial = case with >=3 checked calls; distinct by event sequence",
+                        quick: 64,
+                        thorough: 600,
+                        par: 12,
+                        assumptions: vec!["a definition is in force once the serve loop has processed it: the driver waits for quiescence after each define before calling", "for failures inside a lazy stream only 'exactly one terminal event, nothing after it' is asserted"],
+                        required: vec!["calls_checked", "overlapping_call_bursts"],
+                    },
+                    &tier,
+                    seed,
+                    |s, _| c19::run_case(s),
+                ),
+                "C16" => checks_e5::run(
+                    checks_e5::Plan {
+                        prop: "C16",
+                        level: "exploration",
+                        rule: "event sequences (8-15 events) over 2 names x 2 contexts on a real serve process: register, re-register (replace), register with an invalid script, unregister, failing trigger, triggers and trigger bursts; after every successful register the client appends two triggers the moment it sees .registered, while a hook delays the handler task before it subscribes by 0/5/20 ms; lifecycle automaton over the global log per (context, name): one start outcome per register, every stop announced by exactly one .unregistered naming the stop frame (and the error), triggers inside an instance's announced interval answered exactly once by it, never by a stopped or a second instance; non-trivial = case with >=3 instances and >=2 answered triggers; distinct by event sequence",
+                        quick: 64,
+                        thorough: 600,
+                        par: 12,
+                        assumptions: vec!["the serve_start delay hook sleeps on the handler's own task only (equivalent to that task being descheduled)", "absence of an answer is decided after a later-registered canary handler in the same context answered a final trigger plus a quiet period"],
+                        required: vec!["handler_instances_checked", "triggers_right_after_registered"],
+                    },
+                    &tier,
+                    seed,
+                    |s, _| c16::run_case(s),
+                ),
+                "C15" => checks_e5::run(
+                    checks_e5::Plan {
+                        prop: "C15",
+                        level: "exploration",
+                        rule: "generated handler programs: 0-4 explicit .append statements (with/without --meta incl. keys that collide with the stamps, --ttl of every kind, --context own/other/zero), return value in {nothing,string,int,float,bool,list,record}, return_options suffix/ttl present or not, failure (error make / missing column / non-record --meta) before, between or after the appends or none; three triggers per handler with unrelated traffic and a canary handler proving the triggers were processed; per trigger: frames appear exactly in the order [appends.., return frame], stamped handler_id/frame_id, user meta preserved, handler's context, scripted TTLs, CAS content equal to the scripted rendering; on failure none of them, exactly one .unregistered carrying the error, nothing afterwards; non-trivial = program with an append, a return value or a failure; distinct by program text",
+                        quick: 64,
+                        thorough: 600,
+                        par: 12,
+                        assumptions: vec!["absence of output is decided after a canary handler in the same context answered the last trigger plus a 200 ms quiet period", "return values of binary type are not generated (their JSON rendering is null by construction)"],
+                        required: vec!["handler_output_frames_checked"],
+                    },
+                    &tier,
+                    seed,
+                    |s, _| c15::run_case(s),
+                ),
                 "C14" => checks_e5::run(
                     checks_e5::Plan {
                         prop: "C14",
